@@ -18,6 +18,7 @@ import (
 
 	"github.com/twmb/franz-go/pkg/kfake"
 	"github.com/twmb/franz-go/pkg/kgo"
+	"github.com/twmb/franz-go/pkg/kmsg"
 	"github.com/twmb/franz-go/plugin/kotel"
 	"go.opentelemetry.io/otel"
 	"go.opentelemetry.io/otel/propagation"
@@ -111,7 +112,7 @@ func nonZero(b []byte) []byte {
 
 func genE2E(r *hx.Rng, via string) {
 	prov := "noop"
-	if r.Chance(45) {
+	if r.Chance(45) && via != "cmp" { // via=cmp reads the extracted context from the consumed record: noop provider only
 		prov = "sdk"
 	}
 	flags := r.Intn(4)
@@ -200,6 +201,9 @@ func generate(a hx.Args) {
 	}
 	for i := 0; i < a.N(40, 600); i++ {
 		genE2E(r, "wire")
+	}
+	for i := 0; i < a.N(30, 300); i++ {
+		genE2E(r, "cmp")
 	}
 	generateBatches(r, a)
 	if a.Tier == "thorough" { // small scope: every header list of length <= 3 over 2 keys x 3 values, every op on 3 keys
@@ -312,6 +316,8 @@ type lane struct {
 	topic      string
 	ptr, ctr   *kotel.Tracer
 	prod, cons *kgo.Client
+	cprod      *kgo.Client // via=cmp: producer of the compacted topic (lingers, so that two records share a batch)
+	cn         int
 }
 
 type world struct {
@@ -363,6 +369,84 @@ func (w *world) wire(l *lane) {
 			panic(err)
 		}
 	}
+}
+
+const cmpTopic = "cmp"
+
+func (w *world) compacted(l *lane, rec *kgo.Record) *kgo.Record {
+	w.ensureCluster()
+	ctx, cancel := context.WithTimeout(context.Background(), 20*time.Second)
+	defer cancel()
+	if l.cprod == nil {
+		var err error
+		l.cprod, err = kgo.NewClient(kgo.SeedBrokers(w.cluster.ListenAddrs()...), kgo.WithHooks(l.ptr), kgo.ProducerLinger(30*time.Millisecond),
+			kgo.RecordPartitioner(kgo.ManualPartitioner()))
+		if err != nil {
+			panic(err)
+		}
+		req := kmsg.NewPtrCreateTopicsRequest()
+		req.TimeoutMillis = 5000
+		rt := kmsg.NewCreateTopicsRequestTopic()
+		rt.Topic, rt.NumPartitions, rt.ReplicationFactor = cmpTopic+l.topic, 1, 1
+		rc := kmsg.NewCreateTopicsRequestTopicConfig()
+		rc.Name, rc.Value = "cleanup.policy", kmsg.StringPtr("compact")
+		rt.Configs = append(rt.Configs, rc)
+		req.Topics = append(req.Topics, rt)
+		if resp, err := req.RequestWith(ctx, l.cprod); err != nil || resp.Topics[0].ErrorCode != 0 {
+			panic(fmt.Sprint("create compacted topic: ", err))
+		}
+	}
+	l.cn++
+	topic := cmpTopic + l.topic
+	rec.Topic, rec.Partition, rec.Key = topic, 0, []byte(fmt.Sprintf("r%d", l.cn))
+	fkey := []byte(fmt.Sprintf("f%d", l.cn))
+	filler := &kgo.Record{Topic: topic, Key: fkey, Value: []byte("filler"), Headers: []kgo.RecordHeader{
+		{Key: "traceparent", Value: []byte("00-0123456789abcdef0123456789abcdef-0123456789abcdef-01")}, {Key: "filler", Value: []byte("1")}, {Key: "tracestate", Value: []byte("f=1")}}}
+	// one batch: both are buffered within the linger
+	var wg sync.WaitGroup
+	var perr error
+	for _, r := range []*kgo.Record{rec, filler} {
+		wg.Add(1)
+		l.cprod.Produce(ctx, r, func(_ *kgo.Record, err error) {
+			if err != nil {
+				perr = err
+			}
+			wg.Done()
+		})
+	}
+	wg.Wait()
+	if perr != nil {
+		panic(fmt.Sprint("produce:", perr))
+	}
+	if filler.Offset != rec.Offset+1 {
+		panic(fmt.Sprintf("record and filler not adjacent: %d %d", rec.Offset, filler.Offset))
+	}
+	for _, r := range []*kgo.Record{{Topic: topic, Key: fkey, Value: []byte("newer")}, {Topic: topic, Key: []byte(fmt.Sprintf("z%d", l.cn)), Value: []byte("tail")}} {
+		if err := l.cprod.ProduceSync(ctx, r).FirstErr(); err != nil {
+			panic(fmt.Sprint("produce:", err))
+		}
+	}
+	w.cluster.Compact()
+	co, err := kgo.NewClient(kgo.SeedBrokers(w.cluster.ListenAddrs()...), kgo.WithHooks(l.ctr), kgo.FetchMaxWait(250*time.Millisecond),
+		kgo.ConsumePartitions(map[string]map[int32]kgo.Offset{topic: {0: kgo.NewOffset().At(rec.Offset)}}))
+	if err != nil {
+		panic(err)
+	}
+	defer co.Close()
+	var got *kgo.Record
+	for got == nil {
+		fs := co.PollRecords(ctx, 1)
+		if ctx.Err() != nil {
+			panic("poll timeout")
+		}
+		fs.EachError(func(_ string, _ int32, e error) { panic(fmt.Sprint("fetch:", e)) })
+		fs.EachRecord(func(r *kgo.Record) { got = r })
+	}
+	if got.Offset != rec.Offset {
+		panic(fmt.Sprintf("consumed offset %d, produced %d", got.Offset, rec.Offset))
+	}
+	hx.St.Inc("e2e.via-compaction")
+	return got
 }
 
 func fmtSC(sc trace.SpanContext) string {
@@ -441,6 +525,12 @@ func (w *world) e2e(t []string) (*kgo.Record, string) {
 		if got.Offset != rec.Offset {
 			panic(fmt.Sprintf("consumed offset %d, produced %d", got.Offset, rec.Offset))
 		}
+	case "cmp":
+		// the record crosses the wire and then survives a log compaction of its batch: it is produced in one batch with a
+		// filler record of another key (which carries headers of its own), the filler is superseded by a later batch,
+		// one more batch follows (the active batch is never compacted), kfake compacts (the broker rewrites the partly
+		// superseded batch from its decoded survivors), and a fresh consumer reads the record back at its offset
+		got = w.compacted(l, rec)
 	default:
 		panic("bad via")
 	}
